@@ -32,7 +32,7 @@ SYM = [
     ("ref", ["b", "a"]), ("ref", ["c", "a", "c"]), ("def", "c", ""),
     ("refd", ["a"]), ("refd", ["b", "a"]),  # references inside a directive body (rendered by a nested parse)
 ]
-SYM_SMALL = [0, 1, 2, 4, 6, 7, 8, 12, 13, 16, 17]
+SYM_SMALL = [0, 1, 2, 4, 6, 7, 8, 12, 13, 16]
 BULLETS = "-*+"
 
 
